@@ -98,16 +98,29 @@ func helperCallee(ins ssa.Instruction) *ssa.Function {
 
 // visitDeep iterates fn's instructions and, at calls of new helpers, the helpers' instructions.
 func visitDeep(fn *ssa.Function, f func(ssa.Instruction), stack map[*ssa.Function]bool) {
+	visitDeepC(fn, f, stack, nil)
+}
+
+// enteredBy: for an instruction of a new helper, the call through which the most recent deep visit
+// (instrs / cgoCalls / callsTo started at some entry function) reached the helper. Guards are then
+// taken along that call chain rather than over all callers of the helper: a helper shared by two
+// entry points is judged in the context of the entry the rule is looking at.
+var enteredBy = map[*ssa.Function]ssa.CallInstruction{}
+
+func visitDeepC(fn *ssa.Function, f func(ssa.Instruction), stack map[*ssa.Function]bool, via ssa.CallInstruction) {
 	if stack[fn] || len(stack) > 4 {
 		return
 	}
 	stack[fn] = true
 	defer delete(stack, fn)
+	if via != nil {
+		enteredBy[fn] = via
+	}
 	for _, b := range fn.Blocks {
 		for _, ins := range b.Instrs {
 			f(ins)
 			if h := helperCallee(ins); h != nil {
-				visitDeep(h, f, stack)
+				visitDeepC(h, f, stack, ins.(ssa.CallInstruction))
 			}
 		}
 	}
@@ -125,7 +138,11 @@ func uniqueArg(r *renderer, p *ssa.Parameter) (string, bool) {
 		return "", false
 	}
 	var rs []string
-	for _, cs := range gWorld.callersOfCached(fn) {
+	sites := gWorld.callersOfCached(fn)
+	if via, ok := enteredBy[fn]; ok {
+		sites = []ssa.CallInstruction{via} // the entry the current rule is looking at
+	}
+	for _, cs := range sites {
 		args := cs.Common().Args
 		if idx >= len(args) {
 			return "", false
@@ -146,6 +163,9 @@ func helperResult(r *renderer, c *ssa.CallCommon, idx int) (string, bool) {
 	fn := c.StaticCallee()
 	if !isNewHelper(fn) || fn.Signature.Results().Len() <= idx {
 		return "", false
+	}
+	if isErrorType(fn.Signature.Results().At(idx).Type()) {
+		return "", false // an error result stays `helper(args)#k`: rules ask whether it is nil, not what it says
 	}
 	var rs []string
 	nres := 0
@@ -221,7 +241,11 @@ func (w *World) contextFacts(fn *ssa.Function, kill bool, depth int) []Fact {
 		return nil
 	}
 	var common map[string]Fact
-	for _, cs := range w.callersOfCached(fn) {
+	sites := w.callersOfCached(fn)
+	if via, ok := enteredBy[fn]; ok {
+		sites = []ssa.CallInstruction{via}
+	}
+	for _, cs := range sites {
 		ins := cs.(ssa.Instruction)
 		fs := w.factsAtKD(ins, kill, depth+1)
 		cur := map[string]Fact{}
@@ -304,4 +328,36 @@ func helperValue(v ssa.Value) ssa.Value {
 		inner = rv
 	}
 	return inner
+}
+
+// enteringArg: for a parameter of a new helper, the argument passed by the call through which the
+// current rule reached the helper (see enteredBy).
+func enteringArg(v ssa.Value) ssa.Value {
+	p, ok := v.(*ssa.Parameter)
+	if !ok || !isNewHelper(p.Parent()) {
+		return nil
+	}
+	via, ok := enteredBy[p.Parent()]
+	if !ok {
+		return nil
+	}
+	idx := paramIndex(p.Parent(), p)
+	if idx < 0 || idx >= len(via.Common().Args) {
+		return nil
+	}
+	return via.Common().Args[idx]
+}
+
+// vocabHasMethod: does a function of the confirmed tree end with this (possibly shortened) name?
+func vocabHasMethod(name string) bool {
+	short := name
+	if i := strings.LastIndex(short, "."); i >= 0 {
+		short = short[i+1:]
+	}
+	for k := range vocab {
+		if strings.HasSuffix(k, "."+short) {
+			return true
+		}
+	}
+	return false
 }
